@@ -6,7 +6,7 @@ from props import _positions as P
 THEOREMS = ['C06_feed_tracks_coord', 'C06_advance_to_tracks_coord', 'C06_from_text_slice_coord', 'C06_coord_step',
             'C06_lexer_coords', 'C06_lexer_coords_under_H_nl', 'C06_dyn_coords_str', 'C06_dyn_coords_bytes',
             'C06_dyn_token_coords', 'C06_meta_span', 'C06_meta_passthrough', 'C06_meta_span_inlined_token_refuted',
-            'C06_test_newline_false_refuted', 'C06_example']
+            'C06_test_newline_false_refuted', 'C06_spans_ordered_nested', 'C06_example']
 GEN_DEPS = ['LineCounter', 'LexStep', 'DynStep']
 RULE = ('random token-soup grammars (1-4 kept + 0-2 ignored terminals from a regex fragment, 1-2 newline-capable '
         'terminals spelled \\n, \\r?\\n, [\\n], \\s, [^...], \\W, \\D, [\\t-\\r], (?s:.), \\x0a, [\\x00-\\x1f], global DOTALL; '
@@ -48,7 +48,7 @@ def oracle(out):
     if out['kind'] == 'unsupported':
         return bad
     for t in P.result_tokens(out):
-        m = P.token_claim(out['buf'], t, out['dynamic'])
+        m = P.token_claim(out['buf'], t, out['dynamic'], out['a'], out['b'])
         if m:
             bad.append(('token-coordinates', m))
     for m in P.meta_violations(out):
@@ -99,7 +99,7 @@ def correspond(ctx):
     col = P.Collector(ctx, 'c06', oracle, witness, run_witness)
     mult = 3 if ctx.widen else 1
     # 1. token-soup grammars
-    for gi in range(ctx.scale(45, 450) * mult):
+    for gi in range(ctx.scale(32, 200) * mult):
         if P.enough(ctx):
             break
         g, pieces, extra = P.gen_flat_grammar(rng)
@@ -120,7 +120,7 @@ def correspond(ctx):
                 col.run('scan', g, 'lalr', 'contextual', text + rng.choice(['', '\n', ' ?']) + text, 'str',
                         (rng.choice(P.WINDOW_PARTS), '') if rng.random() < 0.5 else None, 'scan', extra)
     # 2. structured grammar: tree metas
-    for gi in range(ctx.scale(8, 40) * mult):
+    for gi in range(ctx.scale(6, 30) * mult):
         if P.enough(ctx):
             break
         g, comments = P.gen_struct_grammar(rng)
